@@ -33,15 +33,22 @@ TrajVerdict(c, o) ==
 
 \* per-axis position, roll/pitch/yaw and speed plots against time (or index)
 XAxis(c) == IF Len(c.stamps) = 0 THEN [k \in DOMAIN c.traj |-> k - 1] ELSE [k \in DOMAIN c.stamps |-> c.stamps[k] - c.start]
-\* Euler angles (sxyz, degrees) of the attitudes used for these plots: rotations about a single coordinate axis, away from gimbal lock
-RPY(r) == IF r = RID THEN <<0, 0, 0>>
-          ELSE LET q == QTURN[r]  d == IF q = 3 THEN -90 ELSE 90 * q IN
-               CASE AXIS[r] = 1 -> <<d, 0, 0>> [] AXIS[r] = 3 -> <<0, 0, d>>
+\* roll / pitch / yaw (degrees) plotted for an attitude: any triple in the conventional ranges (roll, yaw in [-180, 180], pitch in
+\* [-90, 90]) that reproduces the attitude, R = Rz(yaw) Ry(pitch) Rx(roll).  In gimbal lock (pitch = +-90) roll and yaw are not unique,
+\* and which representative is shown is left open; away from it the triple is unique up to the representation of a half turn.
+AxisRot(ax, deg) == IF deg % 360 = 0 THEN RID ELSE CHOOSE r \in O24 : r # RID /\ AXIS[r] = ax /\ QTURN[r] = (deg \div 90) % 4
+RPYOk(r, t) == /\ \A a \in 1..3 : t[a] % 90 = 0 /\ t[a] >= -180 /\ t[a] <= 180
+               /\ t[2] >= -90 /\ t[2] <= 90
+               /\ RMul(AxisRot(3, t[3]), RMul(AxisRot(2, t[2]), AxisRot(1, t[1]))) = r
 SeriesVerdict(c, o) ==
   LET n == Len(c.traj)  xs == XAxis(c) IN
   IF o.xyz_x # <<xs, xs, xs>> \/ o.rpy_x # <<xs, xs, xs>> THEN "TimeAxisWrong"
   ELSE IF o.xyz_y # [a \in 1..3 |-> [k \in 1..n |-> c.traj[k].p[a]]] THEN "PositionSeriesWrong"
-  ELSE IF o.rpy_y # [a \in 1..3 |-> [k \in 1..n |-> RPY(c.traj[k].r)[a]]] \/ (o.rpy_y[1][1] = 180 /\ FALSE) THEN "AngleSeriesWrong"
+  ELSE IF \E a \in 1..3 : Len(o.rpy_y[a]) # n THEN "AngleSeriesWrong"
+  ELSE IF \E k \in 1..n : ~RPYOk(c.traj[k].r, <<o.rpy_y[1][k], o.rpy_y[2][k], o.rpy_y[3][k]>>) THEN "AngleSeriesWrong"
+  ELSE IF "rpy2_y" \in DOMAIN o /\ \E k \in 1..n : ~RPYOk(RMul(o.rpy2_g, c.traj[k].r), <<o.rpy2_y[1][k], o.rpy2_y[2][k], o.rpy2_y[3][k]>>)
+       THEN "AngleSeriesNotOfTheCurrentPoses"          \* plotted again after the object was rotated from the left by rpy2_g
+  ELSE IF "rpy3_flat" \in DOMAIN o /\ ~o.rpy3_flat THEN "AngleSeriesNotOfTheCurrentPoses"        \* after projecting onto xy: roll = pitch = 0
   ELSE IF o.xyz_labels # <<Label("x", c.unit), Label("y", c.unit), Label("z", c.unit)>> THEN "AxisLabelsWrong"
   ELSE IF o.xlabel # (IF Len(c.stamps) = 0 THEN "index" ELSE "t") THEN "AxisLabelsWrong"
   ELSE IF Len(c.stamps) > 0 /\ o.speed_x # [k \in 1..(n - 1) |-> xs[k + 1]] THEN "SpeedTimeAxisWrong"
